@@ -691,6 +691,8 @@ fn fail_exit(f: Fail) -> ! {
 fn c19t(args: &Args) -> ! {
     let mut rep = Report::new("C19", "threads at lock granularity under the controlled scheduler: the service's source is compiled with its std::sync lock imports redirected to scheduled locks, so every acquisition of the client table's lock is a scheduling point that is enabled only when it would not block; 2 threads (thorough: also 3) x 1-2 canonical calls each against one real service, for every base step Test01..End: the same step of one client id twice/thrice, a step racing with its successor / its predecessor / End, two clients side by side, new clients starting concurrently; complete DFS over all interleavings of the acquisitions; oracle per interleaving: replies and the clients' final steps (probed on the live service) equal those of some sequential order of the calls in the reference model 'a client at step s accepts exactly step s' (brute force over all orders), no panic, no deadlock; non-trivial = distinct complete interleavings");
     install_hooks();
+    // (a service that used try-acquisitions could observe a held lock: the release of a lock is a scheduling point here)
+    vh::vsched::sync::RELEASE_YIELDS.store(true, std::sync::atomic::Ordering::SeqCst);
     let templates = match canonical_templates() {
         Ok(t) => std::sync::Arc::new(t),
         Err(e) => {
